@@ -278,6 +278,40 @@ func asmGenDocSource(r *rand.Rand, idx int) []asmLine {
 	return src
 }
 
+// a documented-form source in which one symbol (from a pool of three) is the subject of two or
+// three LOAD lines: same or different sizes, adjacent or separated by other lines; sometimes one
+// more LOAD of it follows the menu block (then the source is not of the documented form)
+func asmGenDupLoadSource(r *rand.Rand, idx int) []asmLine {
+	base := asmGenDocSource(r, idx)
+	k := 0
+	for k < len(base) && !(base[k].Op == "DOWN" || base[k].Op == "UP" || base[k].Op == "NEXT" || base[k].Op == "PREVIOUS") {
+		k++
+	}
+	plain := append([]asmLine{}, base[:k]...)
+	batch := base[k:]
+	sym := asmPick(r, []string{"foo", "bar", "do_it"})
+	sizes := []string{"0", "1", "10", "20", "255", "256", "65536"}
+	n := 2 + r.Intn(2)
+	first := asmPick(r, sizes)
+	for i := 0; i < n; i++ {
+		sz := first
+		if r.Intn(2) == 0 {
+			sz = asmPick(r, sizes)
+		}
+		l := asmLn("LOAD", sym, sz)
+		pos := len(plain)
+		if i > 0 && r.Intn(3) > 0 {
+			pos = r.Intn(len(plain) + 1)
+		}
+		plain = append(plain[:pos:pos], append([]asmLine{l}, plain[pos:]...)...)
+	}
+	out := append(plain, batch...)
+	if len(batch) > 0 && r.Intn(4) == 0 {
+		out = append(out, asmLn("LOAD", sym, asmPick(r, sizes)))
+	}
+	return out
+}
+
 var asmJunkArgs = []string{"*", ".", "_", "^", "<", ">", "a.b", "a*b", "foo-bar", "\"foo\"", "'", "_x", "*x", "1_a", "x1", "A", "aB", "1A", "0x10", "é", "a!", "-1", "1.5", "foo", "bar", "1", "0", "00", "256", "1a"}
 
 // adversarial stream: any word (also NOOP and unknown words), any number of arguments of any
@@ -682,6 +716,11 @@ func runAsm(o opts) error {
 		{asmLn("UP", "1", "a"), asmLn("HALT"), asmLn("UP", "2", "b")},
 		{asmLn("NOOP")},
 		{},
+		// the same symbol loaded more than once in one source: every LOAD line is an instruction
+		{asmLn("LOAD", "foo", "10"), asmLn("HALT"), asmLn("LOAD", "foo", "20")},
+		{asmLn("LOAD", "foo", "10"), asmLn("LOAD", "foo", "10")},
+		{asmLn("LOAD", "foo", "0"), asmLn("LOAD", "bar", "1"), asmLn("LOAD", "foo", "0"), asmLn("MAP", "foo"), asmLn("LOAD", "foo", "300"), asmLn("DOWN", "foo", "0", "to_foo")},
+		{asmLn("LOAD", "foo", "1"), asmLn("UP", "1", "back"), asmLn("LOAD", "foo", "1")}, // across a menu block (not a documented source)
 		// a batch block followed by ordinary instructions; the three-symbol DOWN form with a symbolic selector
 		{asmLn("DOWN", "foo", "1", "to_foo"), asmLn("UP", "0", "back"), asmLn("INCMP", ".", "*")},
 		{asmLn("DOWN", "foo", "k", "baz"), asmLn("MOVE", "bar")},
@@ -752,6 +791,11 @@ func runAsm(o opts) error {
 		r := hx.Rng(o.seed, "asm-doc", i)
 		src := asmGenDocSource(r, i)
 		add(src, asmPrintSrc(r, src), "doc")
+	}
+	for i := 0; i < o.n/10; i++ {
+		r := hx.Rng(o.seed, "asm-dup", i)
+		src := asmGenDupLoadSource(r, i)
+		add(src, asmPrintSrc(r, src), "dupload")
 	}
 	for i := 0; i < o.n-ndoc; i++ {
 		r := hx.Rng(o.seed, "asm-adv", i)
